@@ -1,7 +1,6 @@
-(* gro_lossless, assembled: for every batch (within the capacity bound, input
-   bytes < 256, the bytes in front of the packets zero) the packets the kernel
+(* gro_lossless, assembled: for every batch (input bytes < 256) the packets the kernel
    makes of the written buffers are, as a multiset, the input packets -- equal in
-   every compared byte (IPv6 flow label and PSH bit masked, see the findings). *)
+   every compared byte. *)
 From WG Require Import Base.Prelude Gen.Constants Gro.Bytes Gro.Model Gro.KernelSpec Gro.Spec Gro.Proofs Gro.Csum Gro.Headers Gro.HeadersTcp.
 From Coq Require Import Permutation.
 Local Open Scope N_scope.
@@ -109,16 +108,14 @@ Qed.
 Lemma kernel_segment_zero pkt : kernel_segment zero_vhdr pkt = [pkt].
 Proof. reflexivity. Qed.
 
-(* Flow equivalence (the third clause of holdsb, with the IPv6 flow label and the
-   PSH bit masked) holds for every batch. *)
-Theorem gro_lossless_modulo : forall (canUDP : bool) (offset : N) (bufs : list buf),
-  (forall b, In b bufs -> b_cap b <= 65535 + 2 * offset) -> bytes_ok bufs ->
-  (forall b, In b bufs -> b_hdr b = zero_vhdr) ->
+(* Flow equivalence (the third clause of holdsb) holds for every batch. *)
+Theorem gro_lossless : forall (canUDP : bool) (offset : N) (bufs : list buf),
+  bytes_ok bufs ->
   let s := handle_gro canUDP offset bufs in
   s_err s = false ->
-  floweq_gen true true bufs (s_tw s) (s_bufs s) = true.
+  floweq_ok bufs (s_tw s) (s_bufs s) = true.
 Proof.
-  intros udp off inp Hcaps Hbytes Hzero s He.
+  intros udp off inp Hbytes s He.
   pose proof (gro_bookkeeping udp off inp He) as [Hlen [Hnd [Hbound Htrace]]]. fold s in Hlen, Hnd, Hbound, Htrace.
   (* toWrite is determined by the trace *)
   assert (Htw : s_tw s = tw_of (s_trace s) 0).
@@ -129,33 +126,26 @@ Proof.
     destruct (loop_inv_all udp off inp (length inp) (le_n _) He0) as [I _]. apply (i_tw _ _ _ I). }
   assert (Hvalid : valid_trace (s_trace s)).
   { intros i j p Hn. destruct (Htrace i _ Hn) as [_ [H1 H2]]. rewrite <- Htw. auto. }
-  set (f := fun m => canon_gen true true (b_pkt (get_buf inp m))).
+  set (f := fun m => canon (b_pkt (get_buf inp m))).
   (* per written buffer *)
   assert (Hper : forall j, In j (s_tw s) ->
-            map (canon_gen true true) (kernel_segment (b_hdr (get_buf (s_bufs s) j)) (b_pkt (get_buf (s_bufs s) j))) =
+            map canon (kernel_segment (b_hdr (get_buf (s_bufs s) j)) (b_pkt (get_buf (s_bufs s) j))) =
             map f (members (s_trace s) j)).
   { intros j Hj. destruct (merged_dec (s_trace s) j) as [Hm|Hm].
     - destruct (N.eq_dec (v_gso (dec_vhdr (b_hdr (get_buf (s_bufs s) j)))) GSO_UDP_L4) as [Eu|Eu].
-      + apply (gro_udp_lossless udp off inp j Hcaps He Hm Eu).
-      + apply (gro_tcp_lossless udp off inp j Hcaps Hbytes He Hm Eu).
-    - destruct (gro_passthrough_partial udp off inp j He Hj Hm) as [Hp Hh]. fold s in Hp, Hh.
+      + apply (gro_udp_lossless udp off inp j He Hm Eu).
+      + apply (gro_tcp_lossless udp off inp j Hbytes He Hm Eu).
+    - destruct (gro_passthrough udp off inp j He Hj Hm) as [Hp Hz]. fold s in Hp, Hz.
       rewrite (members_fresh _ _ Hm). cbn [map]. unfold f.
-      assert (Hz : b_hdr (get_buf (s_bufs s) j) = zero_vhdr).
-      { destruct Hh as [Hh|Hh]; [exact Hh|]. rewrite Hh. unfold get_buf.
-        destruct (nth_in_or_default (N.to_nat j) inp dummy_buf) as [Hi|Hi]; [apply Hzero; exact Hi|].
-        exfalso. specialize (Hbound j Hj). unfold len in Hbound. rewrite map_length in Hbound.
-        assert (N.to_nat j < length inp)%nat by lia.
-        pose proof (nth_In inp dummy_buf H) as Hin. rewrite Hi in Hin.
-        specialize (Hzero _ Hin). discriminate. }
       rewrite Hz, kernel_segment_zero, Hp. reflexivity. }
-  unfold floweq_gen, segments, written. rewrite flat_map_map, map_flat_map.
+  unfold floweq_ok, floweq_gen, segments, written. fold canon. rewrite flat_map_map, map_flat_map.
   rewrite (flat_map_ext_in' _ (fun j => map f (members (s_trace s) j))) by exact Hper.
   rewrite <- map_flat_map.
   apply perm_eqb_complete.
   rewrite Htw.
   eapply perm_trans; [apply Permutation_map; apply members_partition; exact Hvalid|].
   rewrite Hlen. unfold f.
-  pose proof (map_indices (fun b => canon_gen true true (b_pkt b)) inp 0 [] eq_refl) as E. cbn [app] in E. rewrite E.
+  pose proof (map_indices (fun b => canon (b_pkt b)) inp 0 [] eq_refl) as E. cbn [app] in E. rewrite E.
   apply Permutation_refl.
 Qed.
-Print Assumptions gro_lossless_modulo.
+Print Assumptions gro_lossless.
